@@ -113,6 +113,8 @@ type RunCfg struct {
 	// CloseOnReturn closes the side's connection when its endpoint returns (what the
 	// applications do: the process exits or tears the connection down).
 	CloseOnReturn bool
+	// CloseOnSuccess additionally closes the side's connection when it returns nil.
+	CloseOnSuccess bool
 }
 
 // RunResult is the outcome of a run.
@@ -184,7 +186,7 @@ func Run(cfg RunCfg) RunResult {
 		mu.Lock()
 		res.SendErr, res.SendReturned, res.SendDur = err, true, time.Since(start)
 		mu.Unlock()
-		if cfg.CloseOnReturn && err != nil {
+		if cfg.CloseOnReturn && (err != nil || cfg.CloseOnSuccess) {
 			cfg.Pair.Send.Close()
 		}
 	}()
@@ -203,7 +205,7 @@ func Run(cfg RunCfg) RunResult {
 		mu.Lock()
 		res.RecvErr, res.RecvReturned, res.RecvDur = err, true, time.Since(start)
 		mu.Unlock()
-		if cfg.CloseOnReturn && err != nil {
+		if cfg.CloseOnReturn && (err != nil || cfg.CloseOnSuccess) {
 			cfg.Pair.Recv.Close()
 		}
 	}()
